@@ -28,7 +28,7 @@ CORE_KINDS = [
     "stored-field", "stored-field-self", "stored-list-loop", "stored-dict-loop", "method-on-list-element", "cond-alias", "recursion", "mutual-recursion", "recursive-method",
 ]
 EXT_KINDS = [
-    "self-dispatch-subclass", "diamond-init", "diamond-class-attr", "super-init", "super-method", "explicit-base-init", "closure-captured", "default-param", "staticmethod",
+    "self-dispatch-subclass", "self-dispatch-noinit-subclass", "diamond-init", "diamond-class-attr", "super-init", "super-method", "explicit-base-init", "closure-captured", "default-param", "staticmethod",
     "classmethod", "lambda", "class-attr-method", "diamond-method", "stored-list-append",
 ]
 ALL_KINDS = CORE_KINDS + EXT_KINDS
@@ -547,7 +547,8 @@ class Gen:
                 bases = [a, b]
         if len(bases) == 2 and (self.avoided("diamond-init") if self.diamond_init_would_differ(bases) else False):
             bases = bases[:1]
-        if len(bases) == 2 and self.self_dispatch_changes(bases, []) and self.avoided("self-dispatch-subclass"):
+        if len(bases) == 2 and self.self_dispatch_changes(bases, []) and self.avoided(
+                "self-dispatch-subclass" if any(self.init_info(b)[1] for b in bases) else "self-dispatch-noinit-subclass"):
             bases = bases[:1]
         for b in bases:
             expr, via = self.ref(tmp, b, as_base=True)
@@ -619,7 +620,8 @@ class Gen:
         if force is not None:
             names = list(force["names"])
         names.sort()
-        if bases and names and self.self_dispatch_changes(bases, names) and self.avoided("self-dispatch-subclass"):
+        if bases and names and self.self_dispatch_changes(bases, names) and self.avoided(
+                "self-dispatch-subclass" if self.init_info(e)[1] else "self-dispatch-noinit-subclass"):
             blocked = self.self_called_names(bases)
             names = [n for n in names if n not in blocked]
         init_kind = self.init_info(e)[1]
@@ -1260,7 +1262,9 @@ class Gen:
                 if dl is None or id(dl) not in pos:
                     continue
                 key = "%s:%d>%s:%d" % (pos[id(r["line"])] + pos[id(dl)])
-                kinds[key] = ["self-dispatch-subclass", r["line"].via or "local"]
+                # the receiver's class is only known to the callee frame when the object was built by an __init__
+                kinds[key] = ["self-dispatch-subclass" if self.init_info(s_cls)[1] else "self-dispatch-noinit-subclass",
+                              r["line"].via or "local"]
         return {"files": files, "main": "main.py", "kinds": kinds, "stepped": dict(self.stepped)}
 
 
@@ -1269,7 +1273,7 @@ CLASS_SCENARIOS = {"method", "cbclass", "recv", "objfactory", "classattr", "obj-
 # kinds whose callee is reached through a class or an instance (one root-cause family under --enable-p2)
 OBJECT_KINDS = {
     "constructor", "constructor-inherited-init", "method", "inherited-method", "overriding-method", "self-method",
-    "self-inherited-method", "self-dispatch-subclass", "method-on-param", "method-on-returned", "method-on-list-element",
+    "self-inherited-method", "self-dispatch-subclass", "self-dispatch-noinit-subclass", "method-on-param", "method-on-returned", "method-on-list-element",
     "callback-bound-method", "stored-field", "stored-field-self", "recursive-method", "super-init", "super-method",
     "explicit-base-init", "staticmethod", "classmethod", "class-attr-method", "diamond-method", "diamond-init",
     "diamond-class-attr",
